@@ -46,17 +46,9 @@ func TestReplay(t *testing.T) { harness.ReplayPath(t) }
 // that the search continues behind them. Each name has a reproducer /verif/replay/C09/kf-<name>.json
 // (those cases carry "noAvoid": true, so replaying them shows the failure).
 var avoidKnown = map[string]bool{
-	// TrakBox.GetSampleData(a,b) stores into samples[nr-1] instead of samples[nr-a]: index out of
-	// range (or misplaced entries) for every a > 1.
-	"trak-getsampledata-a-gt-1": true,
-	// NewSdtpEntry(isLeading, dependsOn, dependedOn, redundancy) ignores dependsOn and writes
-	// dependedOn into both fields. Only the API variant uses the constructor; when avoided the entry
-	// is built by conversion SdtpEntry(byte).
-	"sdtp-newsdtpentry-dependson": true,
-	// SttsBox.GetSampleNrAtTime(t) for a time strictly inside the last sample (start of sample N < t <
-	// end of the track) returns N+1, a sample that does not exist, instead of the documented error
-	// ("If time is too big to reach, an error is returned"); at t == end it does return the error.
-	"stts-getsamplenrattime-inside-last-sample": true,
+	// (empty) The two confirmed defects found while building this check were repaired in /repo
+	// ("fix:" commits aa1187f TrakBox.GetSampleData index, 8f32030 NewSdtpEntry); their reproducers
+	// replay/C09/fixed-*.json are replayed on every run as regression inputs.
 }
 
 // allIntervalsMax: up to this many samples every interval 1<=a<=b<=N is evaluated.
@@ -353,12 +345,19 @@ func evalTables(c *tablesCase, st *stats) *harness.Fail {
 
 	// ---- times
 	checkTime := func(t uint64) *harness.Fail {
-		if t > x.DecodeTime[n] && t < x.TotalDur && c.avoid(st, "stts-getsamplenrattime-inside-last-sample") {
-			return nil
-		}
 		*q++
 		want := x.SampleNrAtTime(t)
 		got, err := stbl.Stts.GetSampleNrAtTime(t)
+		if t > x.DecodeTime[n] && t < x.TotalDur {
+			// strictly inside the last sample: "the sample number at or as soon as possible after time" is the
+			// position after the last sample, N+1, without error (the library's own stts_test.go pins this and
+			// mp4ff-crop uses it as an exclusive end); the error is documented for times that cannot be reached,
+			// i.e. t >= end of track.
+			if err != nil || got != uint32(n)+1 {
+				return harness.Failf("C09|SttsBox.GetSampleNrAtTime|inside last sample: want N+1 without error", "GetSampleNrAtTime(%d) = %d, %v; N=%d (stts %v)", t, got, err, n, tb.Stts)
+			}
+			return nil
+		}
 		switch {
 		case want == 0 && err == nil:
 			return harness.Failf("C09|SttsBox.GetSampleNrAtTime|no error past the last sample start", "GetSampleNrAtTime(%d) = %d, no sample starts at or after it (stts %v)", t, got, tb.Stts)
